@@ -70,7 +70,8 @@ def vkey(v: dict) -> str:
 
 def vclass(v: dict) -> tuple:
     """Violation class used by minimisation: same rule and same 'what'."""
-    return (v["rule"], v.get("signature", {}).get("what"))
+    sig = v.get("signature", {})
+    return (v["rule"], sig.get("what"), sig.get("reason"))
 
 
 # ---------------------------------------------------------------------------------------------
